@@ -107,7 +107,7 @@ def _first_para(notes, keys):
     return re.sub(r'\s+', ' ', paras[0])[:700] if paras else ''
 
 
-def do_run(ids, in_repo=False, tier='quick', budget=None, extra_props=None):
+def do_run(ids, in_repo=False, tier='quick', budget=None, extra_props=None, seed=None):
     ids = ids or sorted(os.listdir(SEEDED))
     rcsum = 0
     for sid in ids:
@@ -122,6 +122,8 @@ def do_run(ids, in_repo=False, tier='quick', budget=None, extra_props=None):
             envv.update({'VERIF_EVIDENCE_DIR': os.path.join(tmp, 'evidence'), 'VERIF_REPLAY_DIR': os.path.join(tmp, 'replays'), 'VERIF_MINIMISE_S': '30'})
             if budget:
                 envv['VERIF_BUDGET_S'] = str(budget)
+            if seed is not None:
+                envv['VERIF_SEED'] = str(seed)
             if in_repo:
                 rc, out = sh('git -C /repo apply %s' % os.path.join(d, 'patch.diff'))
                 if rc:
@@ -129,7 +131,11 @@ def do_run(ids, in_repo=False, tier='quick', budget=None, extra_props=None):
                     continue
             else:
                 dst = os.path.join(tmp, 'py34')
-                shutil.copytree('/repo/py34', dst, ignore=shutil.ignore_patterns('__pycache__'))
+                # the committed tree (not the working tree: an --in-repo pass may have a patch applied there right now)
+                rc, out = sh('git -C /repo archive HEAD py34 | tar -x -C %s' % tmp)
+                if rc:
+                    print(sid, 'archive failed', out[-300:])
+                    continue
                 rc, out = sh('cd %s && git init -q . && git apply --directory=. -p1 %s' % (tmp, os.path.join(d, 'patch.diff')))
                 if rc:
                     # fall back to patch(1)
@@ -143,7 +149,7 @@ def do_run(ids, in_repo=False, tier='quick', budget=None, extra_props=None):
                     r = subprocess.run([os.path.join(VERIF, 'check'), prop, '--tier', tier], capture_output=True, text=True, env=envv, timeout=7200)
                     lines = [l.strip() for l in r.stdout.splitlines() if l.strip().startswith('clause=') or l.startswith('HARNESS')]
                     verdict = {0: 'MISSED', 1: 'CAUGHT'}.get(r.returncode, 'ERROR(%d)' % r.returncode)
-                    meta.setdefault('my_checks', {})[prop + ':' + tier] = {'verdict': verdict, 'how': ('git -C /repo apply; ./check; git -C /repo checkout -- .' if in_repo else
+                    meta.setdefault('my_checks', {})[prop + ':' + tier + ('' if seed is None else ':seed%s' % seed)] = {'verdict': verdict, 'how': ('git -C /repo apply; ./check; git -C /repo checkout -- .' if in_repo else
                                                                            'scratch copy of /repo/py34 with the patch applied, BACPYPES_SRC=<copy> ./check %s --tier %s' % (prop, tier)),
                                                                   'first_violations': lines[:3], 'summary': r.stdout.strip().splitlines()[-1] if r.stdout.strip() else ''}
                     print('%-8s %-4s %-8s %s' % (sid, prop, verdict, (lines[0][:170] if lines else r.stdout.strip().splitlines()[-1][:170] if r.stdout.strip() else '')), flush=True)
@@ -190,7 +196,11 @@ if __name__ == '__main__':
         for a in args:
             if a.startswith('--budget='):
                 budget = int(a.split('=')[1])
+        seed = None
+        for a in args:
+            if a.startswith('--seed='):
+                seed = int(a.split('=')[1])
         ids = [a for a in args if not a.startswith('--')]
-        sys.exit(1 if do_run(ids, in_repo, tier, budget) else 0)
+        sys.exit(1 if do_run(ids, in_repo, tier, budget, seed=seed) else 0)
     elif cmd == 'table':
         do_table()
